@@ -522,8 +522,8 @@ fn try_log(f: &RunFn, seed: u64, log: &[u32], property: &str) -> Option<(String,
 
 pub fn shrink(f: &RunFn, seed: u64, log: Vec<u32>, property: &str, class: &str) -> ShrinkResult {
     let start = Instant::now();
-    let budget_execs = 3000u32;
-    let budget_time = Duration::from_secs(25);
+    let budget_execs = 30_000u32;
+    let budget_time = Duration::from_secs(15);
     let mut execs = 0u32;
     let mut best = log;
     let mut ok = |cand: &[u32], execs: &mut u32| -> Option<Vec<u32>> {
